@@ -206,6 +206,7 @@ pub fn def() -> PropDef {
             cases_quick: 60_000,
             cases_thorough: 200_000,
             max_shrink_iters: 2000,
+            limit_factor: 1,
             strategy: case_strategy,
             check: run_case,
         })],
